@@ -222,6 +222,9 @@ def run(pid, tier, v, build, plan=None):
                         'builtin': {'1': 'complex'} if shape == 'TwoB'
                         else {},
                         'falsy_classes': shape == 'TwoF',
+                        # every other shard: declarations in use are watched
+                        # (they have dependents, as under a lookup cache)
+                        'watch': si % 2 == 1,
                         'seed': seed() * 100 + si}))
             for (implv, job), r in zip(jobs, run_children(
                     build, 'replay_declarations.py', jobs)):
